@@ -648,8 +648,13 @@ package commands
 // C08, smudge side: input that does not decode as a pointer is handed back
 // byte for byte (spooled through a temp file), and reported as "not a pointer"
 // only when it was not empty.
+// C14: once the content of the object has been asked for (gf.Smudge), the
+// request is answered as a success - with the content, or, when the download
+// failed and lfs.skipdownloaderrors lets the process go on, with the pointer
+// text, exactly like the one-shot filter (which exits 0 then).
 //@ func smudge
-//@   props C08
+//@   props C08 C14
+//@   ensures @C14 smudgecalls(0) > old(smudgecalls(0)) ==> result1 == nil
 //@   requires @inv gf != nil && to != nil && from != nil && !dyntype(to, "*os.File") && !is_tee(to)
 //@   at call tools.Spool:1 assert arg0__ == to && rrest(arg1__) == old(rrest(from)) && wbuf(to) == old(wbuf(to))
 //@   at call errors.NewNotAPointerError:1 assert wbuf(to) == scat(old(wbuf(to)), old(rrest(from))) && len(old(rrest(from))) != 0
